@@ -1679,6 +1679,21 @@ def _dmig(ctx):
     if v.v is True and nterm == 0:
         v.unknown("the value written for a term")
     v.report(ctx, "wtdmig: a non-zero term is never skipped (terms that are not written come back as zero)", wd)
+    # the matrix type says `complex` (3, 4) exactly when the data is complex: rddmig reads imaginary parts only for types 3 and 4, and a complex
+    # term written through a real format loses its imaginary part.  Decided where the type is set under a test of np.iscomplexobj / isrealobj.
+    v = V()
+    ntyped = 0
+    for a_ in [x for x in E.events("assign") if x.d["name"] == tname and M.is_int_const(x.d["value"])]:
+        k = M.ival(a_.d["value"])
+        for t, pol in a_.facts:
+            if isinstance(t, tuple) and t[:1] == ("op",) and t[1] in ("np.iscomplexobj", "np.isrealobj") and len(t[2]) == 1:
+                is_c = pol if t[1] == "np.iscomplexobj" else (not pol)
+                ntyped += 1
+                v.at(a_.node)
+                if (k >= 3) != is_c:
+                    v.bad({"matrix type": k, "set when the data is": "complex" if is_c else "real"}, a_.node)
+    if ntyped:
+        v.report(ctx, "wtdmig: the matrix type is 3 or 4 exactly when the data is complex", wd)
     # D exponent for the double-precision types
     v = V()
     kinds = set()
@@ -2802,7 +2817,7 @@ def _has_thru(v):
 RULES = [
     ("C13-R1", r1_templates, 34),
     ("C13-R2", r2_nonempty_vector, 4),
-    ("C13-R3", r3_reader_strides, 13),
+    ("C13-R3", r3_reader_strides, 13),   # + 1 when the matrix type is set under a test of np.iscomplexobj
     ("C13-R4", r4_sequence_coverage, 9),
 ]
 LEVEL = "other"
@@ -2812,7 +2827,7 @@ EXPLANATION = ("Static: every hard-wired or default floating-point format in the
                "own summary); typed readers index the fields the writers fill (TABLED1 pairs, GRID columns and the card order of the vectors wtgrids "
                "passes, the fields of a DMIG column card - one term per continuation line, row grid / dof / real / imaginary part where rddmig takes "
                "them, keys formed like the index they are searched in, and searched in an index built from the collection keys of that kind were put into); the DMIG half-storage test matches the reader's mirror, no non-zero term is "
-               "skipped and the reader stores entries at (row position, column position); the head a caller of wtnasints writes fills the fields before "
+               "skipped, the matrix type is complex exactly when the data is, and the reader stores entries at (row position, column position); the head a caller of wtnasints writes fills the fields before "
                "`start`; list writers (wtnasints, and the THRU loops reached from wtset, wtspoints, wtxset1) "
                "emit every element exactly once and give every template as many values as it has fields.  All rules are bound to the public entry "
                "points and follow calls (helpers, nested functions, generators, partial / lambda callbacks); they are decided on symbolic values "
@@ -2822,7 +2837,7 @@ MANIFEST = {
     "text": "Partial claim decided statically: (R1) width of every floating-point spec over the whole double range, card-grid arithmetic of wttabled1/wtgrids "
             "templates, leftover-pair range, last-line head, ENDT; (R2) non-empty-vector contract of writer.vecwrite at its call sites; (R3) reader strides vs "
             "writer layout (TABLED1, GRID incl. the card order of the vectors, DMIG column cards field by field, keys searched where they were collected), DMIG symmetry test vs reader mirror, entry "
-            "orientation, rows written per column, non-zero terms never skipped, D exponent; (R4) wtnasints line wrapping (field "
+            "orientation, rows written per column, non-zero terms never skipped, type 3/4 iff complex data, D exponent; (R4) wtnasints line wrapping (field "
             "count = value count, capacity, consecutive slices), the head written by its callers (wtcsuper, wtextrn, ...) fills the fields before `start`, and the THRU cursor of wtset / wtspoints / wtxset1 (through whatever helper holds the loop). Known findings (default/hard-wired formats narrower "
             "than the value domain) are listed in known_findings.json. Not decided: run detection of _find_sequence on data, text wrapping of SET lines, "
             "DMIG index ordering on data, precision of values, uset2bulk/bulk2uset coordinate chains.",
